@@ -107,6 +107,7 @@ type FuncSpec struct {
 	Clauses   []Clause
 	Pure      bool
 	Trusted   bool
+	Inline    bool // the spec only carries loop invariants: the function is inlined at every call site (e.g. it takes an iterator)
 	Logged    bool // every call is recorded in the ghost log xcalls("<Func>") and its first result as cres("<Func>", i)
 	Nofault   bool
 	Reveal    []string // opaque pure functions whose definitions this proof may use
@@ -155,7 +156,7 @@ type parser struct {
 }
 
 var declKw = map[string]bool{"dialect": true, "use": true, "pure": true, "pred": true, "fold": true, "invariant": true,
-	"ghost": true, "lemma": true, "module": true, "props": true, "opaque": true, "reveal": true, "logged": true, "witness": true, "safe": true, "func": true, "ufun": true, "axiom": true, "nofault": true, "requires": true, "ensures": true, "cover": true, "loop": true, "frame": true, "trusted": true}
+	"ghost": true, "lemma": true, "module": true, "props": true, "opaque": true, "reveal": true, "logged": true, "witness": true, "safe": true, "func": true, "ufun": true, "axiom": true, "nofault": true, "requires": true, "ensures": true, "cover": true, "loop": true, "frame": true, "trusted": true, "inline": true}
 
 func (p *parser) peek() token { return p.toks[p.pos] }
 func (p *parser) next() token { t := p.toks[p.pos]; p.pos++; return t }
@@ -382,6 +383,8 @@ func Parse(src string) (f *File, err error) {
 			cur.Clauses = append(cur.Clauses, Clause{Kind: t.s, Tags: tags, E: e, Text: p.textFrom(start), Ord: n, Finding: fname, Region: region})
 		case "trusted":
 			cur.Trusted = true
+		case "inline":
+			cur.Inline = true
 		case "logged":
 			cur.Logged = true
 		case "nofault":
